@@ -184,6 +184,11 @@ func c02(args []string) int {
 		// snapshots, compactions and syncs right after litestream was restarted on a WAL it had already copied
 		{Name: "seeded/base/after-restart", Cfg: base, Alphabet: strings.Fields("S SW FSNAP SNAP CMP:1 W1 U"), Depth: d(2, 3),
 			Seeds: [][]string{strings.Fields("W3 SW LC:TRUNCATE W1 SW KILL NEW"), strings.Fields("W3 SW W1 SW CL START"), strings.Fields("W3 SW LC:PASSIVE U SW W1 SW KILL NEW")}},
+		// litestream is down while the application commits a (multi-frame) transaction behind the synced position,
+		// backfills it and restarts the WAL with something shorter: the file written after the restart must be one
+		// committed state, not the old position plus the new generation
+		{Name: "seeded/base/tail-hidden-by-restart-while-down", Cfg: base, Alphabet: strings.Fields("W1 U START NEW SW CK:PASSIVE"), Depth: d(3, 4),
+			Seeds: [][]string{strings.Fields("W3 SW CL W3 CK:PASSIVE"), strings.Fields("W3 SW KILL W3 U CK:PASSIVE"), strings.Fields("W3 SW CL U CK:PASSIVE"), strings.Fields("W3 SW CL W3 CK:RESTART")}},
 		{Name: "exact/chunk1/tx", Cfg: chunk1, Alphabet: aTx, Depth: d(3, 5)},
 		{Name: "exact/base/tx", Cfg: base, Alphabet: aTx, Depth: d(3, 5)},
 		{Name: "exact/chunk3/tx", Cfg: chunk3, Alphabet: aTx, Depth: d(3, 4)},
